@@ -62,6 +62,8 @@ pub fn eval(sc: &Scenario) -> CaseResult {
 
 pub fn gen(tier: Tier) -> BoxedStrategy<Scenario> {
     let mut p = GenParams::default();
+    // tick rates other than the default 60 fps (the builder's with_fps follows the game's tick rate)
+    p.fps = vec![60, 60, 60, 30, 120, 144];
     p.max_specs = 2;
     p.ticks = tier.pick((300, 1200), (1500, 4000));
     p.pauses = 0;
@@ -102,9 +104,26 @@ pub fn gen(tier: Tier) -> BoxedStrategy<Scenario> {
 /// player in half of them): what the host simulates must not depend on the spectator being attached.
 pub fn host_drop_case(i: u64, seed: u64) -> Scenario {
     let mut sc = if i % 3 == 0 { super::c07::api_case(i / 3, seed) } else { super::c07::death_case((i * 7919) % (super::c07::NBASE * 120), seed, 1, &[0, 2]) };
+    let mut jitter = false;
+    if i % 3 == 0 && (i / 3) % 2 == 1 {
+        // explicit disconnect_player while packets are being reordered and duplicated (0-250 ms jitter from 15
+        // ticks before to 25 ticks after the call) and the spectator lags: packets the host sent before the
+        // drop reach the spectator after the one that announced it
+        if let Some(t) = sc.ops.iter().find_map(|o| if let Op::Disconnect { tick, .. } = o { Some(*tick) } else { None }) {
+            let r = crate::sim::types::mix(seed ^ 0x6a17, i);
+            let base = sc.link;
+            sc.ops.push(Op::Profile { tick: t.saturating_sub(15), profile: crate::sim::net::LinkProfile { loss: 0, dup: [0u8, 30][(r % 2) as usize], lat_min: 0, lat_max: 60 + ((r >> 8) % 200) as u16 } });
+            sc.ops.push(Op::Profile { tick: t + 25, profile: base });
+            sc.ops.sort_by_key(|o| o.tick());
+            jitter = true;
+            if sc.specs.is_empty() {
+                sc.specs.push(SpecSpec { host: 0, max_behind: 4 + ((r >> 16) % 16) as u8, catchup: 1 + ((r >> 24) % 3) as u8, slow: [0u8, 30, 60][((r >> 28) % 3) as usize], window: sc.max_pred });
+            }
+        }
+    }
     if sc.specs.is_empty() {
         sc.specs.push(SpecSpec { host: 0, max_behind: 10, catchup: 2, slow: 0, window: sc.max_pred });
-        if i % 2 == 1 {
+        if i % 2 == 1 && !jitter {
             if let Some(t) = sc.ops.iter().find_map(|o| if let Op::Kill { tick, .. } = o { Some(*tick) } else { None }) {
                 sc.ops.push(Op::LinkDown { tick: t, from: crate::sim::types::spec_addr(0), to: crate::sim::types::peer_addr(0) });
             }
@@ -162,7 +181,7 @@ pub fn run_prop(ctx: &Ctx) -> PropReport {
         || gen(tier), ctx.tier.pick(5000, 20000), eval));
     let seed = ctx.seed;
     rep.part(|| run_enum(ctx, "host_drops",
-        "C07's two-peer drop scenarios (moment of death x lost tail, explicit disconnect_player) with a spectator on the survivor, in half of them dropped together with the player (silent from the same instant, or disconnected by the next call): spectator frames == host's final timeline, and the host's final timeline and connection status identical to the twin run without the spectator",
+        "C07's two-peer drop scenarios (moment of death x lost tail, explicit disconnect_player) with a spectator on the survivor, in half of them dropped together with the player (silent from the same instant, or disconnected by the next call), in a sixth of them with 0-250 ms of latency jitter and duplication around an explicit disconnect_player and a lagging spectator (packets sent before the drop arrive after the one announcing it): spectator frames == host's final timeline, and the host's final timeline and connection status identical to the twin run without the spectator",
         ctx.tier.pick(3000u64, 20000u64), move |i| host_drop_case(i, seed), eval_host_drops, false));
     rep.floors.push(("spectators".into(), 0.2));
     rep.assumptions = vec!["spectator sessions are built with the same num_players and (mostly) the same prediction window as their host".into()];
